@@ -150,7 +150,7 @@ func (h *history) evaluatePhase(ph *phase, evs []*event) {
 	if p.gran != "" {
 		cfg = " store-config=" + cfgName(p.kind, p.gran)
 	}
-	viol := func(sig string, detail interface{}) { r.Violation(sig+cfg, detail) }
+	viol := func(sig string, detail interface{}) { r.Violation(storeSig(kind, sig+cfg), detail) }
 	r.Count("events", int64(len(evs)))
 	type part struct {
 		ctx int
@@ -202,6 +202,7 @@ func (h *history) evaluatePhase(ph *phase, evs []*event) {
 			}
 			// --- format
 			r.Count("format_checked", 1)
+			r.Count("format_checked:store="+kind, 1)
 			r.Count("format_checked:"+typeName(e.in.typ), 1)
 			if e.problem != "" {
 				viol(fmt.Sprintf("format: %s: layer=%s type=%s", e.problem, lname, typeName(e.in.typ)), h.detail(e, nil))
@@ -262,6 +263,7 @@ func (h *history) evaluatePhase(ph *phase, evs []*event) {
 			switch {
 			case e.out.equal(e.want):
 				r.Count("owner_detokenize_returned_original", 1)
+				r.Count("owner_detokenize_returned_original:"+kind, 1)
 			default:
 				viol(fmt.Sprintf("reversibility: owner did not get the original back: layer=%s type=%s len=%s", lname, typeName(e.in.typ), e.want.lenClass()), h.detail(e, nil))
 			}
@@ -269,6 +271,7 @@ func (h *history) evaluatePhase(ph *phase, evs []*event) {
 			switch {
 			case e.out.equal(e.in):
 				r.Count("foreign_context_got_token_back", 1)
+				r.Count("foreign_context_got_token_back:"+kind, 1)
 			case h.inPool(e.ctx, e.out):
 				r.Count("token_also_exists_in_other_context_tolerated", 1)
 			case e.out.equal(e.want):
@@ -280,6 +283,7 @@ func (h *history) evaluatePhase(ph *phase, evs []*event) {
 			switch {
 			case e.out.equal(e.in):
 				r.Count(e.role+"_token_came_back", 1)
+				r.Count(e.role+"_token_came_back:"+kind, 1)
 			case h.inPool(e.ctx, e.out):
 				r.Count("unknown_token_hit_an_existing_one_tolerated", 1)
 			default:
@@ -329,12 +333,27 @@ func (h *history) evaluatePhase(ph *phase, evs []*event) {
 			}
 			if n >= 2 {
 				r.Count("consistent_keys_with_overlapping_first_calls", 1)
+				r.Count("consistent_keys_with_overlapping_first_calls:"+kind, 1)
 				r.SetAdd("store_kinds_with_contended_consistent_keys", kind)
 				h.contended["first"] = true
+				if p.kind.redis {
+					// first calls for the key that overlapped AND came through different connection pools
+					pools := map[int]bool{}
+					for _, e := range pt.evs {
+						if e.call < firstRet {
+							pools[h.poolOf(e.g)] = true
+						}
+					}
+					if len(pools) >= 2 {
+						r.Count("redis_consistent_keys_with_overlapping_first_calls_from_different_connection_pools", 1)
+						h.contended["pools"] = true
+					}
+				}
 			}
 		}
 		res := porcupine.CheckOperationsTimeout(tokenModel, ops, 20*time.Second)
 		r.Count("linearizability_partitions_checked", 1)
+		r.Count("linearizability_partitions_checked:"+kind, 1)
 		switch res {
 		case porcupine.Ok:
 			for _, e := range pt.evs {
@@ -383,6 +402,7 @@ func (h *history) evaluatePhase(ph *phase, evs []*event) {
 				continue
 			}
 			r.Count("store_records_verified", 1)
+			r.Count("store_records_verified:"+kind, 1)
 		}
 		for fk, tok := range h.fixed {
 			ctx, v := parseFixed(fk, tok.typ)
@@ -401,6 +421,7 @@ func (h *history) evaluatePhase(ph *phase, evs []*event) {
 				continue
 			}
 			r.Count("store_records_verified", 1)
+			r.Count("store_records_verified:"+kind, 1)
 		}
 		r.Count("store_lookup_hit", int64(hits))
 		r.Count("store_lookup_miss", int64(misses))
@@ -447,6 +468,9 @@ func (h *history) evaluatePhase(ph *phase, evs []*event) {
 				viol("store content: metadata visitor and direct BoltDB iteration disagree on the number of records", h.detail(nil, map[string]interface{}{"visitor": total, "bolt": sum}))
 			}
 			r.Count("boltdb_files_iterated", 1)
+		}
+		if p.kind.redis && err == nil {
+			redisContentOracle(h, viol, total, misses)
 		}
 	}
 }
@@ -522,6 +546,7 @@ var boundaryTexts = map[common.TokenType][]string{
 }
 
 func textBoundary(r *ev.Run, kind storeKind, ks ksrig.FullKeyStore) {
+	violation := func(sig string, d interface{}) { r.Violation(storeSig(kind.name(), sig), d) } // Redis variants: signatures start with "redis "
 	g, err := newRig(kind, ks, true)
 	if err != nil {
 		r.Inconclusive(fmt.Sprintf("text boundary: store %s could not be built: %v", kind.name(), err))
@@ -566,7 +591,7 @@ func textBoundary(r *ev.Run, kind storeKind, ks ksrig.FullKeyStore) {
 						return tval{}, "", nil
 					})
 					if pan != nil {
-						r.Violation(fmt.Sprintf("panic in tokenize: layer=%s type=%s text=%s site=%s class=%s", en.tokN, typeName(typ), class, pan.site, pan.class), det(map[string]interface{}{"stack": pan.stack}))
+						violation(fmt.Sprintf("panic in tokenize: layer=%s type=%s text=%s site=%s class=%s", en.tokN, typeName(typ), class, pan.site, pan.class), det(map[string]interface{}{"stack": pan.stack}))
 						continue
 					}
 					switch class {
@@ -578,7 +603,7 @@ func textBoundary(r *ev.Run, kind storeKind, ks ksrig.FullKeyStore) {
 						}
 						_, problem := fromText(typ, tok)
 						if terr != nil || derr != nil || problem != "" || string(back) != text {
-							r.Violation(fmt.Sprintf("text boundary: %s type=%s in-range decimal refused or not restored", en.tokN, typeName(typ)), det(map[string]interface{}{"token": string(tok), "tokenize_error": fmt.Sprint(terr), "detokenized": string(back), "detokenize_error": fmt.Sprint(derr), "token_problem": problem}))
+							violation(fmt.Sprintf("text boundary: %s type=%s in-range decimal refused or not restored", en.tokN, typeName(typ)), det(map[string]interface{}{"token": string(tok), "tokenize_error": fmt.Sprint(terr), "detokenized": string(back), "detokenize_error": fmt.Sprint(derr), "token_problem": problem}))
 							continue
 						}
 						r.Count("text_boundary_in_range_roundtrips", 1)
@@ -587,7 +612,7 @@ func textBoundary(r *ev.Run, kind storeKind, ks ksrig.FullKeyStore) {
 						r.Count("text_boundary_out_of_range_cases", 1)
 						if terr == nil {
 							back, derr := g.detokenizeText(en.l, ctx, typ, tok)
-							r.Violation(fmt.Sprintf("text boundary: %s type=%s accepted %s text instead of failing (a different number is stored)", en.tokN, typeName(typ), class),
+							violation(fmt.Sprintf("text boundary: %s type=%s accepted %s text instead of failing (a different number is stored)", en.tokN, typeName(typ), class),
 								det(map[string]interface{}{"token": string(tok), "detokenized": string(back), "detokenize_error": fmt.Sprint(derr)}))
 						} else {
 							r.Count("text_boundary_refused", 1)
@@ -603,9 +628,9 @@ func textBoundary(r *ev.Run, kind storeKind, ks ksrig.FullKeyStore) {
 							})
 							switch {
 							case pan != nil:
-								r.Violation(fmt.Sprintf("panic in detokenize: layer=%s type=%s text=%s site=%s class=%s", en.detokN, typeName(typ), class, pan.site, pan.class), det(map[string]interface{}{"stack": pan.stack}))
+								violation(fmt.Sprintf("panic in detokenize: layer=%s type=%s text=%s site=%s class=%s", en.detokN, typeName(typ), class, pan.site, pan.class), det(map[string]interface{}{"stack": pan.stack}))
 							case derr == nil && string(back) != text:
-								r.Violation(fmt.Sprintf("text boundary: %s type=%s answered %s token text with a different number", en.detokN, typeName(typ), class), det(map[string]interface{}{"entry": en.detokN, "detokenized": string(back)}))
+								violation(fmt.Sprintf("text boundary: %s type=%s answered %s token text with a different number", en.detokN, typeName(typ), class), det(map[string]interface{}{"entry": en.detokN, "detokenized": string(back)}))
 							default:
 								r.Count("text_boundary_unknown_token_texts_ok", 1)
 							}
